@@ -26,9 +26,12 @@ type c14task struct {
 	w      *world.World
 	schema omniparser.Schema
 	plan   simio.Plan
-	solo   *run.Transcript
-	conc   *run.Transcript
-	reads  int
+	// the task makes a Schema of its own, from the same bytes and the same (shared) Extension values,
+	// while the other tasks run: NewSchema is as much a user of process-wide state as a Transform is
+	ownSchema bool
+	solo      *run.Transcript
+	conc      *run.Transcript
+	reads     int
 }
 
 func runC14(c *Ctx) []Violation {
@@ -74,6 +77,7 @@ func runC14(c *Ctx) []Violation {
 			}
 		}
 		t.plan = simio.DrawPlan(c.T, t.w.Input)
+		t.ownSchema = c.T.Chance("c14.schema-made-in-task", 1, 3)
 		tasks[i] = t
 		c.SigMix(t.w.Hash())
 		c.SigMix(t.plan.Sig())
@@ -105,7 +109,17 @@ func runC14(c *Ctx) []Violation {
 		fns[i] = func(st *sched.Task) {
 			rd := simio.NewReader(t.w.Input, t.plan)
 			rd.Yield = st.Yield
-			t.conc = run.DriveSchema(t.schema, t.w, rd, run.Opts{MaxReads: 400, Between: st.Yield, CustomParam: func() { st.Yield() }}, nil)
+			schema := t.schema
+			if t.ownSchema {
+				st.Yield()
+				own, es, ps := run.NewSchema("sim-schema", t.w.Schema, ext)
+				if own == nil {
+					panic("NewSchema failed on a schema it accepted a moment ago: " + es + ps)
+				}
+				schema = own
+				st.Yield()
+			}
+			t.conc = run.DriveSchema(schema, t.w, rd, run.Opts{MaxReads: 400, Between: st.Yield, CustomParam: func() { st.Yield() }}, nil)
 			t.reads = rd.Stats.Reads
 		}
 	}
